@@ -1,5 +1,5 @@
 From Coq Require Import String List NArith.
-From JS Require Import Base.Wire Extract.RunOMap Extract.RunNum Extract.RunGuess Extract.RunJson Extract.RunRegex Extract.RunDiag Extract.RunRec Extract.RunAllOf Extract.RunRefs Extract.RunEnum.
+From JS Require Import Base.Wire Extract.RunOMap Extract.RunNum Extract.RunGuess Extract.RunJson Extract.RunRegex Extract.RunDiag Extract.RunRec Extract.RunAllOf Extract.RunRefs Extract.RunEnum Extract.RunRules.
 Import ListNotations.
 
 (* one case line -> one result line; the first token names the model *)
@@ -17,6 +17,7 @@ Definition dispatch (line : bytes) : bytes :=
     else if beqb cmd B"allof" then run_allof args
     else if beqb cmd B"refs" then run_refs args
     else if beqb cmd B"enum" then run_enum args
+    else if beqb cmd B"rules" then run_rules args
     else bad_case
   | [] => bad_case
   end.
